@@ -158,17 +158,21 @@ PROPS = {
     },
     "C28": {
         "level": "proof",
-        "verus": ["variables", "variable_value"],
-        "explanation": "TWO KERNELS of CoerceVariableValues. Unit variables: coerce_variable_values, for every operation and provided JSON map, goes through the variable definitions in order -- a provided value (also an explicit null) is coerced to the variable's type "
+        "verus": ["variables", "variable_value", "variable_object"],
+        "explanation": "THREE KERNELS of CoerceVariableValues. Unit variables: coerce_variable_values, for every operation and provided JSON map, goes through the variable definitions in order -- a provided value (also an explicit null) is coerced to the variable's type "
                        "and stored, a failure fails the request; otherwise the default value if there is one; otherwise a request error if the type is non-null; otherwise NO entry -- so the result contains exactly the provided or defaulted variables. "
                        "Unit variable_value: coerce_variable_value, for every schema, type and JSON value: null is an error for a non-null type and null otherwise; an undefined type or an object / interface / union type is an error; "
                        "Int is an integer within 32 bits; Float a JSON float or an integer of magnitude below 2^53; String / Boolean a value of that JSON kind (no coercion between strings and numbers); ID a string or an integer; a custom scalar anything; "
-                       "an enum a string naming one of its values; an accepted value is returned unchanged and everything else is an error. Bodies are re-extracted from /repo on every run.",
+                       "an enum a string naming one of its values; an accepted value is returned unchanged and everything else is an error. "
+                       "Unit variable_object (a second pass over the same function): for an input-object type, a value that is not a JSON object is an error, a key that is not a field of the type is an error, and then the fields of the type in order -- "
+                       "a provided value (also null) is replaced by its coercion to the field's type, otherwise the default value is inserted if there is one, otherwise a non-null field type is an error, otherwise no entry. "
+                       "Bodies are re-extracted from /repo on every run.",
         "assumptions": ["variables: coerce_variable_value and graphql_value_to_json enter as functions of their arguments (both are pure); serde_json's Map::get_key_value is a lookup by key and Map::insert an uninterpreted map_insert on the entries",
-                        "variable_value: the list arm and the input-object arm are REPLACED by opaque calls (listed rewrites): list wrapping, nested input objects, input-object defaults and unknown input fields are not decided; "
+                        "variable_value: the list arm and the input-object arm are REPLACED by opaque calls (listed rewrites); variable_object keeps the input-object arm, with its recursive calls entering as the function-of-its-arguments `variable_coerced`, "
+                        "`get_mut` + assignment written as `get` + `insert` under the same key, and serde_json's Map spoken about only through uninterpreted entries_has / entries_at / map_insert; the list arm stays opaque in both; "
                         "serde_json's as_str / as_i64 / as_f64 / is_* are modelled on a Value split by kind; the floating-point comparison |f| < 2^53 - 1 is opaque; Option::is_some_and has its std meaning; &str values with equal characters are equal (axiom)"],
-        "not_decided": ["list coercion (single values wrapped), input-object coercion (defaults filled in, unknown fields rejected, nested values), graphql_value_to_json (default values), request::coerce_variable_values' conversion of the error",
-                        "that a successful result conforms to its declared type for list and input-object types"],
+        "not_decided": ["list coercion (single values wrapped), graphql_value_to_json (default values), request::coerce_variable_values' conversion of the error, what `some key is not a field of the type` means below the shim",
+                        "that the per-unit specifications compose into one recursive CoerceVariableValues (nested calls are named, not unfolded); termination of the recursion"],
     },
     "C29": {
         "level": "proof",
